@@ -94,7 +94,7 @@ def do_add(w, ants, step, i, opts, req, on_reject=None, only_bad=False):
     trig_only = trig_only_of(req)
     npart, nr, trig = step["npart"], step["nr"], step["trig"]
     # every third particle carries an explicitly given total weight (it then differs from survival x interaction weight)
-    ps = [Particle(step["flavors"][k], (i, k, -100 - k), (0, 0, 1), 1e6 * (i + 1) + k, interaction_type=step["kinds"][k], weight=(0.375 + 0.01 * k) if k % 3 == 1 else None)
+    ps = [Particle(step["flavors"][k], (i, k, -100 - k), (1.0 + k, 2.0, -3.0 - i), 1e6 * (i + 1) + k, interaction_type=step["kinds"][k], weight=(0.375 + 0.01 * k) if k % 3 == 1 else None)
           for k in range(npart)]
     for k, p in enumerate(ps):
         p.survival_weight = 0.5 + 0.01 * k
@@ -149,9 +149,10 @@ def do_add(w, ants, step, i, opts, req, on_reject=None, only_bad=False):
     T = bool(glob)
     rec = {"energies": [float(p.energy) for p in ps], "kinds": [p.interaction.kind.name for p in ps], "ids": [int(p.id.value) for p in ps],
            "vertices": [[float(x) for x in p.vertex] for p in ps], "weights": [[float(p.survival_weight), float(p.interaction_weight), float(p.weight)] for p in ps],
+           "details": [[float(x) for x in p.direction] + [float(p.interaction.inelasticity), float(p.interaction.em_frac), float(p.interaction.had_frac)] for p in ps],
            "thrown": 2 + i % 3}
     if trig_only["particles"] and not T:
-        rec.update(energies=[], kinds=[], ids=[], vertices=[], weights=[])
+        rec.update(energies=[], kinds=[], ids=[], vertices=[], weights=[], details=[])
     rec["triggered"] = T if opts["triggers"] and (not trig_only["triggers"] or T) else None
     rec["rays"] = [[[float(rp[ai][r].v), 2.0 * rp[ai][r].v + 0.5] + [float(x) for x in pol[ai][r]] if r < nr[ai] else [0.0] * 5 for ai in range(nant)]
                    for r in range(maxw)] if opts["rays"] and (not trig_only["rays"] or T) else None       # [tof, path length, polarization x, y, z] per ray and antenna
@@ -194,10 +195,12 @@ def getrec(e):
         out["ids"] = [int(p["particle_id"]) for p in pi] if n > 0 else []
         out["vertices"] = [[float(p["vertex_x"]), float(p["vertex_y"]), float(p["vertex_z"])] for p in pi] if n > 0 else []
         out["weights"] = [[float(p["survival_weight"]), float(p["interaction_weight"]), float(p["weight"])] for p in pi] if n > 0 else []
+        out["details"] = [[float(p["direction_x"]), float(p["direction_y"]), float(p["direction_z"]), float(p["interaction_inelasticity"]), float(p["interaction_em_frac"]), float(p["interaction_had_frac"])]
+                          for p in pi] if n > 0 else []
     except ValueError as err:
         if "not saved" not in str(err):
             raise
-        out.update(energies="NOTSAVED", kinds="NOTSAVED", ids="NOTSAVED", vertices="NOTSAVED", weights="NOTSAVED")
+        out.update(energies="NOTSAVED", kinds="NOTSAVED", ids="NOTSAVED", vertices="NOTSAVED", weights="NOTSAVED", details="NOTSAVED")
     for name, fn in (("triggered", lambda: None if e.triggered is None else bool(e.triggered)),
                      ("rays", lambda: _rays_of(e)),
                      ("waves", lambda: e.get_waveforms()), ("noise", lambda: e.noise_bases),
@@ -216,7 +219,7 @@ def cmp_model(m, o, nant, where=""):
     if m["energies"] == [] and o["energies"] == "NOTSAVED":
         pass
     else:
-        for key in ("energies", "kinds", "ids", "vertices", "weights"):
+        for key in ("energies", "kinds", "ids", "vertices", "weights", "details"):
             if m[key] != o[key]:
                 return ("particles of the i-th event == those of the i-th accepted add", {"field": key, "expected": m[key], "got": o[key], "where": where})
     if m["triggered"] is None:
@@ -280,7 +283,7 @@ def _norm(x):
 
 def same_obs(a, b):
     """Two observations of the same event through different access paths."""
-    for k in ("energies", "kinds", "ids", "vertices", "weights", "triggered", "rays", "comps"):
+    for k in ("energies", "kinds", "ids", "vertices", "weights", "details", "triggered", "rays", "comps"):
         if _norm(a[k]) != _norm(b[k]):
             return k
     for k in ("waves", "noise"):
